@@ -20,7 +20,7 @@ PROPS = {
  "C15": dict(needs=["ImpSearch", "ImportProofs", "ImpLoad"], gen=[], slices=[("slices_world", "c15_search"), ("slices_world", "c15_semantics")]),
  "C06": dict(needs=CORE + ["Float", "Eq"], gen=[], slices=[("slices_values", "c06_eq")]),
  "C12": dict(needs=REFINE + ["SeqProofs", "SliceReal", "RunG", "SeqSpec"], gen=[], slices=[("slices_values", "c12_seq")]),
- "C16": dict(needs=CORE + ["RunG", "Codec", "Bits", "Utf"], gen=[], slices=[("slices_values", "c16_codecs")]),
+ "C16": dict(needs=CORE + ["RunG", "Codec", "Bits", "Utf", "Utf16"], gen=[], slices=[("slices_values", "c16_codecs")]),
  "C17": dict(needs=CORE + ["RunG", "Codec", "Bits", "LinkBits", "Float", "RoundProofs"], gen=["GenBitwise"], slices=[("slices_values", "c17_bits")]),
  "C18": dict(needs=CORE + ["PrintInt", "PrintDict"], gen=[], slices=[("slices_values", "c18_print"), ("slices_values", "c18_cli")]),
  "C13": dict(needs=REFINE + ["RunG", "Exc", "Once"], gen=[], slices=[("slices_core", "c13_once"), ("slices_core", "core_programs")]),
